@@ -44,7 +44,12 @@ def dp_event(c, seed):
     from abtem.measurements import DiffractionPatterns
     rng = np.random.default_rng(seed)
     n, d = DP_GRIDS[c["grid"]]
-    a = rng.random((3,) + n).astype(np.float32)
+    lead = (3,)
+    if c.get("stack") == "many_patterns":
+        lead, n, d = (17, 19), (32, 32), (Fraction(1, 40), Fraction(1, 50))
+    elif c.get("stack") == "large_patterns":
+        lead, n, d = (5, 5), (128, 96), (Fraction(1, 100), Fraction(1, 80))
+    a = rng.random(lead + n).astype(np.float32)
     if c["zero_member"]:
         a[1] = 0.0
     kw = {"uniform": dict(sampling="uniform"), "one_sampling": dict(sampling=float(max(d) * Fraction(5, 4))),
@@ -53,14 +58,16 @@ def dp_event(c, seed):
     ev = {"k": "dp", "case": c, "raised": False, "finite": True, "total_ppb": [], "lazy_ppb": 0}
     with warnings.catch_warnings():
         warnings.simplefilter("ignore")
-        dp = DiffractionPatterns(a, sampling=(float(d[0]), float(d[1])), fftshift=True, ensemble_axes_metadata=[OrdinalAxis(values=(0, 1, 2))], metadata={"energy": 100e3})
+        dp = DiffractionPatterns(a, sampling=(float(d[0]), float(d[1])), fftshift=True,
+                                 ensemble_axes_metadata=[OrdinalAxis(values=tuple(range(m))) for m in lead], metadata={"energy": 100e3})
         try:
             out = val(dp.interpolate(**kw), False)
             ev["finite"] = bool(np.isfinite(out).all())
             tot0 = a.sum((-2, -1))
             tot1 = np.nan_to_num(out, nan=0.0).sum((-2, -1))
             scale = float(tot0.max())
-            ev["total_ppb"] = [ppb(abs(float(x) - float(y)) / scale) for x, y in zip(tot0, tot1)]
+            worst = np.abs(tot0.astype(np.float64) - tot1.astype(np.float64)).reshape(-1) / scale
+            ev["total_ppb"] = [ppb(float(x)) for x in (worst if worst.size <= 6 else np.sort(worst)[-6:])]
             ev["gpts"] = list(out.shape[-2:])
             if c["lazy"]:
                 lz = val(dp.ensure_lazy().interpolate(**kw), True)
@@ -213,7 +220,7 @@ def self_test(ctx: Ctx):
 def run(ctx: Ctx):
     quick = ctx.tier == "quick"
     ctx.rule = ("scenarios enumerated by TLC: DiffractionPatterns.interpolate (uniform / one / two samplings / gpts smaller, larger, same) "
-                "x 4 grids x an all-zero member or not x lazy; Images.interpolate fft (same gpts, own sampling, gpts smaller / larger / "
+                "x 4 grids x an all-zero member or not x lazy, plus large stacks (17 x 19 patterns of 32 x 32, 5 x 5 patterns of 128 x 96); Images.interpolate fft (same gpts, own sampling, gpts smaller / larger / "
                 "mixed, finer / coarser sampling) x 4 grids x real / complex x lazy; gaussian_source_size vs gaussian_filter x ensemble "
                 "layout (ss, oss, sos, sso) x sigma (small, anisotropic, wider than the scan) x 3 integration ranges x lazy; "
                 "non-trivial = every scenario")
@@ -226,7 +233,20 @@ def run(ctx: Ctx):
     cases.sort(key=lambda c: json.dumps(c, sort_keys=True))
     rng.shuffle(cases)
     if quick:
-        cases = cases[:120]
+        # one case per stratum at every seed: dp (target, stack, lazy), image (target, complex, lazy), source (layout, sigma, lazy); then the seeded remainder
+        def stratum(c):
+            if c["k"] == "dp":
+                return ("dp", c["target"], c.get("stack"), c["lazy"])
+            if c["k"] == "image":
+                return ("image", c["target"], c.get("complex"), c["lazy"])
+            return ("source", c.get("layout"), c.get("sigma"), c["lazy"])
+        seen, first, rest = set(), [], []
+        for c in cases:
+            k = stratum(c)
+            (rest if k in seen else first).append(c)
+            seen.add(k)
+        cases = first + rest[:30]
+        ctx.notes["strata"] = len(seen)
     else:
         ctx.exhaustive = True
     evs = []
